@@ -2,8 +2,8 @@
 # tools/all_seeds.sh [seed…]: regression over every kept seeded change. Works on a scratch worktree of /repo
 # (/tmp/rw, removed at the end) through VERIF_REPO, from the stable /verif worktree /work/stable, so that neither
 # /repo nor /verif is touched. One line per seed in seeded/REGRESSION.txt: caught / no-failing-input-found / MISSED.
-OUT=/verif/seeded/REGRESSION.txt
-RW=/tmp/rw
+OUT=${OUT:-/verif/seeded/REGRESSION.txt}
+RW=${RW:-/tmp/rw}
 [ -d $RW ] || git -C /repo worktree add --detach $RW HEAD -q
 : > $OUT.tmp
 SEEDS="$@"; [ -n "$SEEDS" ] || SEEDS=$(ls -d /verif/seeded/C*-* | xargs -n1 basename)
@@ -15,7 +15,7 @@ for s in $SEEDS; do
   extra=$(python3 -c "import json,sys; print(' '.join(json.load(open('$D/meta.json')).get('also_checks',[])))" 2>/dev/null)
   line="$s"
   for c in $id $extra; do
-    r=$(cd /work/stable && VERIF_REPO=$RW VERIF_SEED=${VERIF_SEED:-1} timeout 2400 ./check $c 2>&1 | grep -E "^VIOLATION" | head -1)
+    r=$(cd ${STABLE:-/work/stable} && VERIF_REPO=$RW VERIF_SEED=${VERIF_SEED:-1} timeout 2400 ./check $c 2>&1 | grep -E "^VIOLATION" | head -1)
     case "$r" in
       *no-failing-input-found) v="no-failing-input-found" ;;
       VIOLATION*) v="caught" ;;
@@ -27,4 +27,4 @@ for s in $SEEDS; do
 done
 mv $OUT.tmp $OUT
 git -C $RW checkout -q -- . ; git -C /repo worktree remove --force $RW
-git -C /work/stable checkout -- . 2>/dev/null
+git -C ${STABLE:-/work/stable} checkout -- . 2>/dev/null
